@@ -336,7 +336,14 @@ func (evm *EVM) Call(ctx context.Context, caller ethvm.ContractRef, addr common.
 						preCallResult.Err = ErrOutOfGas
 					}
 
-					return preCallResult.Ret, preCallResult.Gas, preCallResult.Err
+					// The frame fails before the callee's code runs: like every other failed frame it must
+					// undo its state changes (the value transfer above) and forfeit its gas unless it reverted.
+					evm.StateDB.RevertToSnapshot(snapshot)
+					ret, gas, err = preCallResult.Ret, preCallResult.Gas, preCallResult.Err
+					if err != ErrExecutionReverted {
+						gas = 0
+					}
+					return ret, gas, err
 				}
 
 				gas = preCallResult.Gas
